@@ -264,7 +264,7 @@ func (db *dispatchBuilder) Block(tp string) {
 }
 
 func (db *dispatchBuilder) Block2(tp px.Type) {
-	if db.returnType != nil {
+	if db.blockType != nil {
 		panic(`Block specified more than once`)
 	}
 	db.blockType = tp
